@@ -107,6 +107,10 @@ PROGRAMS += [
     "__all__: list=['exported_one']\ndef exported_one():\n    return 1\nprint(exported_one(),__all__)",
     "_platform_names=['platform_helper']\n__all__=['exported_one', 'EXPORTED_CONSTANT', *_platform_names]\nEXPORTED_CONSTANT=3\ndef exported_one():\n    return EXPORTED_CONSTANT\ndef platform_helper():\n    return exported_one()\nprint(platform_helper(),__all__)",
     "__all__=('exported_one',)\ndef exported_one():\n    return 1\nprint(exported_one(),__all__)",
+    # __all__ at every position of a chained assignment
+    "__all__=public_names=['exported_one','public_names']\ndef exported_one():\n    return 1\ndef internal_helper():\n    return exported_one()\nprint(internal_helper(),__all__,public_names)",
+    "public_names=__all__=['exported_one','public_names']\ndef exported_one():\n    return 1\ndef internal_helper():\n    return exported_one()\nprint(internal_helper(),__all__,public_names)",
+    "first_alias=second_alias=__all__=['exported_one','EXPORTED_CONSTANT']\nEXPORTED_CONSTANT=3\ndef exported_one():\n    return EXPORTED_CONSTANT\ndef internal_helper():\n    return exported_one()\nprint(internal_helper(),__all__,first_alias,second_alias)",
     # the same name bound by several imports / several binding forms, with few uses
     "try:\n    from os.path import basename_missing as chosen_function\nexcept ImportError:\n    from os.path import basename as chosen_function\nprint(chosen_function('/a/b'))",
     "def importer():\n    try:\n        from json import dumps\n    except ImportError:\n        from json import dumps\n    return dumps([1])\nprint(importer())",
@@ -490,8 +494,8 @@ def main(argv):
         for st in ast.walk(tree):           # a literal __all__ list may sit inside an if / try statement of the module
             if not isinstance(st, (ast.Assign, ast.AugAssign, ast.AnnAssign)):
                 continue
-            tg = st.targets[0] if isinstance(st, ast.Assign) else getattr(st, 'target', None)
-            if isinstance(tg, ast.Name) and tg.id == '__all__' and isinstance(getattr(st, 'value', None), (ast.List, ast.Tuple)):
+            tgs = st.targets if isinstance(st, ast.Assign) else [getattr(st, 'target', None)]      # any target of a chained assignment
+            if any(isinstance(tg, ast.Name) and tg.id == '__all__' for tg in tgs) and isinstance(getattr(st, 'value', None), (ast.List, ast.Tuple)):
                 exported += [e.value for e in st.value.elts if isinstance(e, ast.Constant) and isinstance(e.value, str)]
         if exported:
             cases += 1
